@@ -13,7 +13,8 @@ use rustpython_parser::{parse, Mode};
 use std::collections::HashSet;
 // verification hook: solver-friendly set/map stand-ins of the harness crate (see /verif/DESIGN.md §9)
 #[cfg(pytest_language_server_verif)]
-use crate::verif_collections::HashSet;
+#[allow(unused_imports)]
+use crate::verif_collections::*;
 use std::path::{Path, PathBuf};
 use tracing::{debug, info};
 
